@@ -367,7 +367,23 @@ func catalogue() []entry {
 			pr := 0.05 + 0.9*g.Unit()
 			x := 6*g.Unit() - 3
 			sh := []int{256, 65536, 1 << 20}[g.Intn(3)]
-			return call{desc: fmt.Sprintf("n=%d k=%d p=%v x=%v", n, k, pr, x), run: func(r *R) {
+			shapes := []float64{0.5, 1, 1.5, 2, 2.5, 3.5, 5, 7.25}
+			sa, sb := shapes[g.Intn(len(shapes))], shapes[g.Intn(len(shapes))]
+			xb := []float64{0.05, 0.3, 0.5, 0.95}[g.Intn(4)]
+			return call{desc: fmt.Sprintf("n=%d k=%d p=%v x=%v beta(%v,%v) at %v", n, k, pr, x, sa, sb, xb), run: func(r *R) {
+				// asked again after the MIRRORED question (symmetric functions whose two
+				// evaluation orders round differently: a memo that treats (a,b) and
+				// (b,a), or k and n-k, as one key answers by whoever came first)
+				m1, m2, m3, m4 := mathx.BetaInc(xb, sa, sb), mathx.Beta(sa, sb), mathx.Lchoose(n, k), mathx.Choose(n, k)
+				mathx.BetaInc(xb, sb, sa)
+				mathx.BetaInc(1-xb, sb, sa)
+				mathx.Beta(sb, sa)
+				mathx.Lchoose(n, n-k)
+				mathx.Choose(n, n-k)
+				if q1, q2, q3, q4 := mathx.BetaInc(xb, sa, sb), mathx.Beta(sa, sb), mathx.Lchoose(n, k), mathx.Choose(n, k); math.Float64bits(q1) != math.Float64bits(m1) || math.Float64bits(q2) != math.Float64bits(m2) || math.Float64bits(q3) != math.Float64bits(m3) || math.Float64bits(q4) != math.Float64bits(m4) {
+					r.Fail("BetaInc(%v,%v,%v)/Beta/Lchoose(%d,%d)/Choose answered %v/%v/%v/%v, and %v/%v/%v/%v after the mirrored arguments were evaluated", xb, sa, sb, n, k, m1, m2, m3, m4, q1, q2, q3, q4)
+				}
+				r.F(m1).F(m2)
 				// asked again after the same functions were evaluated at arguments that
 				// differ by a power of two (keys truncated to 8/16/20 bits collide)
 				w1, w2 := mathx.Choose(n, k), stats.BinomialDist{N: n, P: pr}.PMF(float64(k))
@@ -611,6 +627,10 @@ func catalogue() []entry {
 				r.F(s.Map(x)).F(s.Unmap(s.Map(x)))
 				ma, mi := s.Ticks(o)
 				r.OwnFs(ma).OwnFs(mi).I(s.CountTicks(lvl)).OwnFs(s.TicksAtLevel(lvl).([]float64))
+				if s != p.lin[i] {
+					// (a value receiver today; a pointer receiver would reach the caller's scale)
+					r.Fail("a query on the caller's Linear scale changed it: %+v, was %+v", s, p.lin[i])
+				}
 			}}
 		}),
 		E("scale.Log", []string{"scale.TickOptions.FindLevel", "scale.QQ.Map", "scale.QQ.Unmap"}, func(g simkit.G, p *pool) call {
